@@ -328,11 +328,30 @@ fn probe_flags(args: &Args) {
         .split(',')
         .map(|s| s.parse().unwrap())
         .collect();
-    for order in ["shutdown_first", "flag_first", "shutdown_only", "flag_only"] {
+    // signals whose default action is to ignore them: a conditional default must do nothing
+    let ign_sigs: Vec<c_int> = args
+        .get("ign-signals")
+        .unwrap_or("28,23")
+        .split(',')
+        .map(|s| s.parse().unwrap())
+        .collect();
+    for order in ["shutdown_first", "flag_first", "shutdown_only", "flag_only", "default_first", "default_only", "shared_winch"] {
+        let with_default = order.starts_with("default");
         for script in &scripts {
-            for status in &statuses {
-                for sig in &sigs {
-                    let (sig, status) = (*sig, *status);
+            if script.contains('w') && order != "shared_winch" {
+                continue;
+            }
+            for (si, status) in statuses.iter().enumerate() {
+                if with_default && si > 0 {
+                    continue; // the exit status plays no role
+                }
+                let all_sigs: Vec<(c_int, &str)> = sigs
+                    .iter()
+                    .map(|s| (*s, "term"))
+                    .chain(ign_sigs.iter().filter(|_| with_default).map(|s| (*s, "ign")))
+                    .collect();
+                for (sig, kind) in &all_sigs {
+                    let (sig, status, kind) = (*sig, *status, *kind);
                     let st = fork_run(5000, || {
                         let term = Arc::new(AtomicBool::new(false));
                         let usz = Arc::new(AtomicUsize::new(0));
@@ -353,6 +372,17 @@ fn probe_flags(args: &Args) {
                                 reg_shutdown(&term);
                             }
                             "shutdown_only" => reg_shutdown(&term),
+                            "default_first" => {
+                                signal_hook::flag::register_conditional_default(sig, Arc::clone(&term)).unwrap();
+                                reg_flag(&term);
+                            }
+                            "default_only" => {
+                                signal_hook::flag::register_conditional_default(sig, Arc::clone(&term)).unwrap();
+                            }
+                            "shared_winch" => {
+                                reg_shutdown(&term);
+                                signal_hook::flag::register_conditional_default(libc::SIGWINCH, Arc::clone(&term)).unwrap();
+                            }
                             _ => reg_flag(&term),
                         }
                         for ch in script.chars() {
@@ -360,6 +390,14 @@ fn probe_flags(args: &Args) {
                                 'a' => term.store(true, Ordering::SeqCst),
                                 'd' => term.store(false, Ordering::SeqCst),
                                 'u' => usz.store(3, Ordering::SeqCst),
+                                'w' => {
+                                    unsafe { libc::raise(libc::SIGWINCH) };
+                                    report(&format!(
+                                        "W|{}|{};",
+                                        term.load(Ordering::SeqCst) as u8,
+                                        usz.load(Ordering::SeqCst)
+                                    ));
+                                }
                                 'r' => {
                                     unsafe { libc::raise(sig) };
                                     report(&format!(
@@ -382,6 +420,7 @@ fn probe_flags(args: &Args) {
                             .raw("ops", &chars_json(script))
                             .int("exit", status as i64)
                             .int("sig", sig as i64)
+                            .str("kind", kind)
                             .str("status", &st.text)
                             .raw("r", &kv_json(&st.report))
                             .done()
@@ -452,6 +491,7 @@ fn probe_reject(args: &Args) {
                     let flag = Arc::new(AtomicBool::new(false));
                     let usz = Arc::new(AtomicUsize::new(0));
                     let mut fd_to_check: RawFd = -1;
+                    let mut fd_closes0 = 0usize;
                     let outcome = catch_unwind(AssertUnwindSafe(|| -> Result<(), std::io::Error> {
                         let probe = DropProbe(Arc::clone(&drops));
                         match *entry {
@@ -505,6 +545,7 @@ fn probe_reject(args: &Args) {
                                 drop(probe);
                                 let (_r, w) = std::os::unix::net::UnixStream::pair()?;
                                 fd_to_check = w.as_raw_fd();
+                                fd_closes0 = closes_of(fd_to_check);
                                 std::mem::forget(_r);
                                 signal_hook::low_level::pipe::register(n, w).map(|_| ())
                             }
@@ -513,6 +554,7 @@ fn probe_reject(args: &Args) {
                                 let (_r, w) = std::os::unix::net::UnixStream::pair()?;
                                 let raw = w.into_raw_fd();
                                 fd_to_check = raw;
+                                fd_closes0 = closes_of(raw);
                                 std::mem::forget(_r);
                                 signal_hook::low_level::pipe::register_raw(n, raw).map(|_| ())
                             }
@@ -550,6 +592,8 @@ fn probe_reject(args: &Args) {
                     } else {
                         -1
                     };
+                    // close() calls on the captured descriptor number since it was created
+                    let fd_closes = if fd_to_check >= 0 { closes_of(fd_to_check) as i64 - fd_closes0 as i64 } else { -1 };
                     // Is the library still usable?
                     let usable = catch_unwind(AssertUnwindSafe(|| {
                         let f = Arc::new(AtomicBool::new(false));
@@ -564,7 +608,7 @@ fn probe_reject(args: &Args) {
                     }))
                     .unwrap_or(false);
                     report(&format!(
-                        "class={};inst_ok={};changed={:?};drops={};flag_rc={};usz_rc={};fd_open={};usable={};",
+                        "class={};inst_ok={};changed={:?};drops={};flag_rc={};usz_rc={};fd_open={};fd_closes={};usable={};",
                         class,
                         inst_ok,
                         changed,
@@ -572,6 +616,7 @@ fn probe_reject(args: &Args) {
                         Arc::strong_count(&flag),
                         Arc::strong_count(&usz),
                         fd_open,
+                        fd_closes,
                         usable as u8
                     ).replace(' ', ""));
                     0
@@ -632,6 +677,31 @@ fn drain_count(fd: RawFd) -> usize {
         total += n as usize;
     }
     total
+}
+
+/// Every `close(2)` of this binary (the library's included: the executable's definition wins over
+/// libc's) is counted per descriptor number, so "closed exactly once" is observed as a count and
+/// not only as "invalid afterwards".
+static CLOSE_COUNTS: [AtomicUsize; 256] = {
+    #[allow(clippy::declare_interior_mutable_const)]
+    const Z: AtomicUsize = AtomicUsize::new(0);
+    [Z; 256]
+};
+
+#[no_mangle]
+pub unsafe extern "C" fn close(fd: c_int) -> c_int {
+    if (0..256).contains(&fd) {
+        CLOSE_COUNTS[fd as usize].fetch_add(1, Ordering::SeqCst);
+    }
+    libc::syscall(libc::SYS_close, fd) as c_int
+}
+
+fn closes_of(fd: RawFd) -> usize {
+    if (0..256).contains(&fd) {
+        CLOSE_COUNTS[fd as usize].load(Ordering::SeqCst)
+    } else {
+        0
+    }
 }
 
 fn make_pair(kind: &str) -> (RawFd, RawFd) {
@@ -730,8 +800,10 @@ fn probe_pipe(args: &Args) {
                     };
                     report(&format!("pre={};got={};", pre, got));
                     // removal closes the descriptor exactly once and nothing is written afterwards
+                    let c0 = closes_of(w);
                     let removed = signal_hook::low_level::unregister(id);
                     let closed = unsafe { libc::fcntl(w, libc::F_GETFD) } == -1;
+                    report(&format!("closes_before={};closes={};", c0, closes_of(w)));
                     // descriptor-number reuse probe
                     let (r2, w2) = make_pair("pipe_nonblock");
                     unsafe { libc::raise(libc::SIGUSR1) };
@@ -807,16 +879,32 @@ fn probe_pipe(args: &Args) {
             Obj::new("iter_pipe").str("fill", "default_unread").int("burst", burst as i64).str("status", &st.text).raw("r", &kv_json(&st.report)).done()
         );
     }
-    // rejected registrations must close the descriptor handed over
-    for (what, sig, bad_fd) in [("forbidden", libc::SIGKILL, false), ("os_rejected", 65, false), ("invalid_fd", libc::SIGUSR1, true)] {
+    // rejected registrations must close the descriptor handed over, exactly once, whatever the
+    // kind of descriptor and whichever stage refuses (flag setting, the OS, the forbidden check)
+    let mut grid: Vec<(&str, c_int, &str)> = Vec::new();
+    for fdkind in ["stream", "dgram", "pipe", "file", "opath"] {
+        grid.push(("forbidden", libc::SIGKILL, fdkind));
+        grid.push(("os_rejected", 65, fdkind));
+        grid.push(("os_rejected", 0, fdkind));
+    }
+    grid.push(("unsettable", libc::SIGUSR1, "opath"));
+    grid.push(("invalid_fd", libc::SIGUSR1, "closed"));
+    grid.push(("invalid_fd", libc::SIGUSR1, "minus_one"));
+    for (what, sig, fdkind) in grid {
         let st = fork_run(5000, || {
-            let (_r, w) = make_pair("stream");
-            let fd = if bad_fd {
-                unsafe { libc::close(w) };
-                w
-            } else {
-                w
+            let fd = match fdkind {
+                "stream" | "dgram" | "pipe" => make_pair(fdkind).1,
+                "file" => unsafe { libc::open(b"/dev/null\0".as_ptr() as *const libc::c_char, libc::O_WRONLY) },
+                "opath" => unsafe { libc::open(b"/dev/null\0".as_ptr() as *const libc::c_char, libc::O_PATH) },
+                "closed" => {
+                    let w = make_pair("stream").1;
+                    unsafe { libc::close(w) };
+                    w
+                }
+                _ => -1,
             };
+            let was_open = unsafe { libc::fcntl(fd, libc::F_GETFD) } != -1;
+            let c0 = closes_of(fd);
             let res = catch_unwind(AssertUnwindSafe(|| signal_hook::low_level::pipe::register_raw(sig, fd)));
             let class = match res {
                 Ok(Ok(_)) => "ok",
@@ -824,12 +912,24 @@ fn probe_pipe(args: &Args) {
                 Err(_) => "panic",
             };
             let closed = unsafe { libc::fcntl(fd, libc::F_GETFD) } == -1;
-            report(&format!("class={};closed={};", class, closed as u8));
+            report(&format!(
+                "class={};closed={};closes={};was_open={};",
+                class,
+                closed as u8,
+                closes_of(fd) - c0,
+                was_open as u8
+            ));
             0
         });
         println!(
             "{}",
-            Obj::new("pipe_reject").str("what", what).str("status", &st.text).raw("r", &kv_json(&st.report)).done()
+            Obj::new("pipe_reject")
+                .str("what", what)
+                .str("fdkind", fdkind)
+                .int("sig", sig as i64)
+                .str("status", &st.text)
+                .raw("r", &kv_json(&st.report))
+                .done()
         );
     }
 }
@@ -1008,16 +1108,20 @@ fn probe_origin(args: &Args) {
     let sigs: Vec<c_int> = if args.flag("all") { (1..=64).collect() } else { vec![10, 12, 15, 17, 14, 11, 29, 34] };
     for signo in &sigs {
         for code in &codes {
-            let mut info: libc::siginfo_t = unsafe { std::mem::zeroed() };
-            info.si_signo = *signo;
-            info.si_code = *code;
-            unsafe {
-                let p = &mut info as *mut libc::siginfo_t as *mut i32;
-                *p.add(4) = 0x1234_5678; // where si_pid lives
-                *p.add(5) = 0x0BAD_CAFE; // where si_uid lives
+            // the values the "kernel" supplies: poison patterns, and the legitimate corner values
+            // (a sender outside the receiver's pid namespace shows as pid 0; root is uid 0)
+            for (wpid, wuid) in [(0x1234_5678i32, 0x0BAD_CAFEi32), (0, 0), (0, 1000), (1, 0), (i32::MAX, 65534)] {
+                let mut info: libc::siginfo_t = unsafe { std::mem::zeroed() };
+                info.si_signo = *signo;
+                info.si_code = *code;
+                unsafe {
+                    let p = &mut info as *mut libc::siginfo_t as *mut i32;
+                    *p.add(4) = wpid; // where si_pid lives
+                    *p.add(5) = wuid; // where si_uid lives
+                }
+                let o = unsafe { Origin::extract(&info) };
+                println!("{}", origin_line("origin_syn", *signo, *code, &o, &format!("[{},{}]", wpid, wuid)));
             }
-            let o = unsafe { Origin::extract(&info) };
-            println!("{}", origin_line("origin_syn", *signo, *code, &o, "0"));
         }
     }
     // (b) real deliveries, ground truth recorded independently
